@@ -978,7 +978,26 @@ func (fr *frame) next(ins *ssa.Next) Value {
 	case *strIter:
 		cs, ok := it.s.concrete()
 		if !ok {
-			unsupportedf("range over symbolic string")
+			// symbolic bytes: decode one rune with the byte-comparison model of utf8.DecodeRuneInString
+			if it.i >= len(it.s.b) {
+				return Tuple{st.False, nil, nil}
+			}
+			mf := fr.p.w.eng.symPkg.Func("ExtDecodeRune")
+			if mf == nil {
+				unsupportedf("range over symbolic string")
+			}
+			fr.p.w.eng.noteStub("range over string -> sym.ExtDecodeRune")
+			res := fr.p.callFunction(fr, mf, []Value{Str{b: it.s.b[it.i:]}}, nil, ins).(Tuple)
+			size := res[1].(*Term)
+			if size.op != OpConst {
+				size = fr.p.simplify(size)
+			}
+			if size.op != OpConst {
+				unsupportedf("range over symbolic string: symbolic rune width")
+			}
+			k := it.i
+			it.i += int(size.c)
+			return Tuple{st.True, st.Const(64, uint64(k)), res[0]}
 		}
 		if it.i >= len(cs) {
 			return Tuple{st.False, nil, nil}
